@@ -138,6 +138,10 @@ func init() {
 			}
 			return []mon.Family{
 				{Name: "cold-start", N: 1, Serial: true, Run: func(w *mon.W, _ int) {
+					if !coldFirst(w, coldBitstrCalls()) {
+						return
+					}
+					defer coldLast(w, coldBitstrCalls())
 					a, b := c09New(w, "", 0, 0), c09New(w, "\xff", 0, 8)
 					if a == nil || b == nil || !c09CheckCmp(w, a, a) || !c09CheckCmp(w, a, b) || !c09CheckCmp(w, b, a) || !c09CheckUpto(w, "", a) || !c09CheckUpto(w, "\xff\xff", b) || !c09CheckUpto(w, "", b) {
 						return
